@@ -8,6 +8,7 @@ import (
 	"bytes"
 	"encoding/json"
 	"fmt"
+	"sort"
 	"strings"
 )
 
@@ -236,7 +237,12 @@ func (s *StructType) IsValidExpression(exp Exp, pipeline *Pipeline, ast *Ast) er
 			}
 		}
 		if len(exp.Value) > len(s.Members) {
+			keys := make([]string, 0, len(exp.Value))
 			for key := range exp.Value {
+				keys = append(keys, key)
+			}
+			sort.Strings(keys)
+			for _, key := range keys {
 				if om := s.getMember(key); om == nil {
 					errs = append(errs, &IncompatibleTypeError{
 						Message: "unexpected field " + key,
